@@ -182,7 +182,7 @@ theorem runOp_step {c c' : Cluster} {op : EnvOp} (h : runOp c op = some c') : En
         split at h
         · rename_i rn' hr
           cases h
-          refine .crash n rn rn' (exCfg n) draws hn (fun m hm => ?_) rfl rfl rfl rfl rfl hr
+          refine .crash n rn rn' (exCfg n) draws hn (fun m hm => ?_) rfl rfl rfl rfl hr
           exact of_decide_eq_true (List.all_eq_true.1 hall m hm)
         · cases h
       · cases h
@@ -236,7 +236,7 @@ theorem c0_init : InitCluster [1, 2, 3] c0 := by
   simp only [c0] at h
   split at h
   · rename_i hn
-    refine ⟨by simpa using hn, exCfg n, [0], rfl, rfl, rfl, rfl, rfl, ?_⟩
+    refine ⟨by simpa using hn, exCfg n, [0], rfl, rfl, rfl, rfl, ?_⟩
     cases hx : exNode n with
     | error e => rw [hx] at h; cases h
     | ok rn' =>
@@ -482,6 +482,82 @@ theorem example_related_crash (val : Refine.Val) :
       Sim.RSD val [1, 2, 3] c s := by
   obtain ⟨c, hc, _⟩ := example_run_crash
   obtain ⟨s, hs, hR⟩ := reachable_related (by decide) (by decide) (c0_related val) (runOps_reachable .init hc)
+  exact ⟨c, s, hc, hs, hR⟩
+
+/-! ## CheckQuorum
+
+The same three nodes built with `checkQuorum := true` (`InitCluster` leaves `cfg.checkQuorum` free).  Two runs
+exercise the behaviours that CheckQuorum adds: a leader that has not heard from a quorum for an election timeout
+steps down in its own term (Spec `stepDown`), and a node of a higher term answers a stale leader's heartbeat with an
+empty MsgAppResp of its own term, which deposes that leader (Spec `updateTerm`). -/
+
+/-- `Sim.exCfg n` with CheckQuorum -/
+def exCfgCQ (n : Nat) : Config := { exCfg n with checkQuorum := true }
+
+def exNodeCQ (n : Nat) : Except String RawNode := RawNode.new (exCfgCQ n) (initStorage [1, 2, 3]) [0]
+
+/-- the initial cluster with CheckQuorum: nodes 1, 2, 3, empty network -/
+def cq0 : Cluster :=
+  { nodes := fun n => if n = 1 ∨ n = 2 ∨ n = 3 then (exNodeCQ n).toOption else none, net := [] }
+
+theorem cq0_init : InitCluster [1, 2, 3] cq0 := by
+  refine ⟨rfl, fun n rn h => ?_⟩
+  simp only [cq0] at h
+  split at h
+  · rename_i hn
+    refine ⟨by simpa using hn, exCfgCQ n, [0], rfl, rfl, rfl, rfl, ?_⟩
+    cases hx : exNodeCQ n with
+    | error e => rw [hx] at h; cases h
+    | ok rn' =>
+      rw [hx] at h
+      simp only [Except.toOption, Option.some.injEq] at h
+      subst h
+      exact hx
+  · cases h
+
+/-- election of node 1 with the vote of node 2 (`net`: 0/1 `MsgVote`, 2 `MsgVoteResp`, 3/4 `MsgApp`) -/
+def opsElect : List EnvOp :=
+  [.campaign 1 [0], .sync 1 [], .deliver 2 0 [0], .sync 2 [], .deliver 1 2 [0], .sync 1 []]
+
+/-- ten ticks of the leader without any response: on the tenth (`electionTick = 10`) `MsgCheckQuorum` finds no
+active quorum and the leader becomes a follower of its own term (one election-timeout draw) -/
+def opsDown : List EnvOp :=
+  [.tick 1 [], .tick 1 [], .tick 1 [], .tick 1 [], .tick 1 [], .tick 1 [], .tick 1 [], .tick 1 [], .tick 1 [],
+   .tick 1 [0]]
+
+/-- the leader's heartbeats go out (`net` 5/6); node 3 campaigns twice (candidate of term 2; `net` 7–10); the
+heartbeat of term 1 (6) reaches it: it answers with an empty `MsgAppResp` of term 2 (`net` 11), which makes node 1 a
+follower of term 2 -/
+def opsStale : List EnvOp :=
+  [.tick 1 [], .sync 1 [], .campaign 3 [0], .campaign 3 [0], .sync 3 [], .deliver 3 6 [], .sync 3 [],
+   .deliver 1 11 [0]]
+
+/-- the leader's log: its empty entry -/
+def cqLog : List Entry := [{ term := 1, index := 1 }]
+
+/-- kernel evaluation: the leader of term 1 steps down in term 1 -/
+theorem example_eval_cq_down :
+    (runOps cq0 (opsElect ++ opsDown)).map obsCluster =
+      some ⟨some ⟨.follower, 1, 0, 0, cqLog⟩, some ⟨.follower, 1, 0, 0, []⟩, some ⟨.follower, 0, 0, 0, []⟩, 5⟩ := by
+  rw [← runOpsK_eq]; decide +kernel
+
+/-- kernel evaluation: the stale leader of term 1 is deposed by the answer of the candidate of term 2 -/
+theorem example_eval_cq_stale :
+    (runOps cq0 (opsElect ++ opsStale)).map obsCluster =
+      some ⟨some ⟨.follower, 2, 0, 0, cqLog⟩, some ⟨.follower, 1, 0, 0, []⟩, some ⟨.candidate, 2, 0, 0, []⟩, 12⟩ := by
+  rw [← runOpsK_eq]; decide +kernel
+
+/-- both CheckQuorum runs end in clusters related to reachable states of the abstract protocol -/
+theorem example_related_cq (val : Refine.Val) (ops' : List EnvOp) (h : ops' = opsDown ∨ ops' = opsStale) :
+    ∃ c s, runOps cq0 (opsElect ++ ops') = some c ∧ Spec.Reachable (Sim.cfgOf [1, 2, 3]) s ∧
+      Sim.RSD val [1, 2, 3] c s := by
+  have hrun : ∃ c, runOps cq0 (opsElect ++ ops') = some c := by
+    rcases h with rfl | rfl
+    · obtain ⟨c, hc, _⟩ := of_map_eq example_eval_cq_down; exact ⟨c, hc⟩
+    · obtain ⟨c, hc, _⟩ := of_map_eq example_eval_cq_stale; exact ⟨c, hc⟩
+  obtain ⟨c, hc⟩ := hrun
+  obtain ⟨s, hs, hR⟩ := reachable_related (by decide) (by decide)
+    (init_related (val := val) (by decide) (by decide) cq0_init) (runOps_reachable .init hc)
   exact ⟨c, s, hc, hs, hR⟩
 
 end RaftVerif.Simulation
